@@ -134,11 +134,11 @@ func c04(c *Ctx) {
 					switch {
 					case isPosField(be.X, "Reply") && isLen(be.Y):
 						// Reply < len  /  Reply <= len (slicing at len is in range, sends nothing)
-						if ((be.Op == token.LSS || be.Op == token.LEQ) && fct.Val) || ((be.Op == token.GTR || be.Op == token.GEQ) && !fct.Val && be.Op == token.GTR) {
+						if ((be.Op == token.LSS || be.Op == token.LEQ) && fct.Val) || ((be.Op == token.GTR || be.Op == token.GEQ) && !fct.Val) {
 							inRange = true
 						}
 					case isLen(be.X) && isPosField(be.Y, "Reply"):
-						if ((be.Op == token.GTR || be.Op == token.GEQ) && fct.Val) || (be.Op == token.LSS && !fct.Val) {
+						if ((be.Op == token.GTR || be.Op == token.GEQ) && fct.Val) || ((be.Op == token.LSS || be.Op == token.LEQ) && !fct.Val) {
 							inRange = true
 						}
 					}
